@@ -41,6 +41,12 @@ LOWER = {
 for k, v in LOWER.items():
     CHECKS[k] = ("lowering-family", LOWER_TECH, v, "DESIGN.md 6 %s, 4.3, App. B.2" % k)
 
+ITER_TECH = ("TLA+ model checking: MC_Iter.tla enumerates module/component metadata shapes, skip lists, next/reset scripts and "
+             "injection plans and checks VisitComplete/VisitOrdered/EndFlags on IterIdeal.tla; each case is replayed on the real "
+             "iterators; IterTrace.tla validates every recorded call result against the Ideal visiting order")
+CHECKS["C25"] = ("iter-family", ITER_TECH, "ModuleIterator: construction, curr_loc (function, instruction, end flag, operator), every next() result and reset() on all modules with 0-3 local functions of 1-3 instructions, with/without imports, every skip subset (incl. all skipped, first skipped, unknown IDs)", "DESIGN.md 6 C25")
+CHECKS["C26"] = ("iter-family", ITER_TECH, "ComponentIterator: same judgement across 1-2 core modules with per-module skip lists (incl. empty modules and skipped trailing functions), plus byte equality of every module encoded after the same plan was applied through a ComponentIterator and through per-module ModuleIterators", "DESIGN.md 6 C26")
+
 checks = []
 for p in props:
     if p in CHECKS:
@@ -69,7 +75,9 @@ m = {"version": 1,
         {"name": "module-family", "path": "lib/fam_module.py", "serves_properties": [p for p in props if p in CHECKS and CHECKS[p][0] == "module-family"],
          "kind_free_text": "TLC (MC_Module.tla generator over ModuleIdeal.tla) -> Rust harness replay on the real wirm API -> TLC trace validation (ModuleTrace.tla)"},
         {"name": "lowering-family", "path": "lib/fam_lower.py", "serves_properties": [p for p in props if p in CHECKS and CHECKS[p][0] == "lowering-family"] + ["C04", "C05"],
-         "kind_free_text": "TLC (MC_Lower.tla generator) + seeded random generator -> real injection APIs + encode -> TLC as execution engine (LowerTrace.tla over Exec.tla / ProbeIdeal.tla)"}],
+         "kind_free_text": "TLC (MC_Lower.tla generator) + seeded random generator -> real injection APIs + encode -> TLC as execution engine (LowerTrace.tla over Exec.tla / ProbeIdeal.tla)"},
+        {"name": "iter-family", "path": "lib/fam_iter.py", "serves_properties": ["C25", "C26"],
+         "kind_free_text": "TLC (MC_Iter.tla over IterIdeal.tla) -> real ModuleIterator/ComponentIterator -> TLC trace validation (IterTrace.tla)"}],
      "checks": checks,
      "not_applicable": na,
      "notes": "All checks share one stage cache per family keyed by the hash of /repo/src + Cargo files and of /verif's specs/harness, so the first check of a family pays for the campaign. fix: commits in /repo: " + " ".join(fix_commits)}
